@@ -15,7 +15,7 @@ RULE = ('cases = random flat machines (1-5 states, 1-3 events, 1-4 candidates pe
         'condition/unless check (a blocked earlier candidate or check), distinct by hash of the case.')
 ASSUMPTIONS = ['callbacks in this check neither raise nor call back into the machine (C04/C05 cover those)',
                'Python runtime semantics of the recording callables']
-THEOREMS = ['C01_order', 'C01_invalid']
+THEOREMS = ['C01_order', 'C01_invalid', 'C01_payload', 'C01_unknown_event']
 
 
 def gen(rng, i, tier):
